@@ -87,6 +87,13 @@ class Scratch:
         self.pristine = {}
 
     def __enter__(self):
+        # remove scratch copies left behind by killed runs (older than 12 h)
+        for old in glob.glob(os.path.join(SCRATCH_ROOT, "verif.*")) + glob.glob(os.path.join(SCRATCH_ROOT, "mutrepo.*")):
+            try:
+                if time.time() - os.path.getmtime(old) > 12 * 3600:
+                    shutil.rmtree(old, ignore_errors=True)
+            except OSError:
+                pass
         shutil.rmtree(self.dir, ignore_errors=True)
         os.makedirs(self.dir)
         subprocess.check_call(["rsync", "-a", "--exclude", "target", "--exclude", ".git",
